@@ -13,7 +13,7 @@ Not decided: that the select loop always makes progress (liveness over timer/com
 """
 from ..inline import inline_view
 from ..mir import AnchorLost
-from ..util import captured_context, creation_site, dj_of, cmp_truth, df_of, fn_short, in_set, callers_keys, backward_slice
+from ..util import closure_family, captured_context, creation_site, dj_of, cmp_truth, df_of, fn_short, in_set, callers_keys, backward_slice
 
 SE = "scylla::policies::speculative_execution::"
 
@@ -141,6 +141,31 @@ def r2_r4(ctx, facts):
         raise AnchorLost("execute: no exit found")
 
 
+def r5(ctx, facts):
+    r = ctx.rule("R5", "an execution that finds the plan exhausted reports `None` (ignorable), never a definitive error", floor=2)
+    # who builds RequestError::EmptyPlan: only the constant the speculative loop returns when nothing was ever started, the
+    # non-speculative path of run_request_no_side_effects, and Clone. A fiber that manufactured it would end the whole call
+    # (can_be_ignored(EmptyPlan) is false) while earlier executions are still in flight.
+    RE = "scylla::errors::RequestError"
+    fb = facts.one(r"^scylla::client::execution::RequestExecutionParams::<.a>::run_request_speculative_fiber::\{closure#0\}$")
+    makers = []
+    for b in closure_family(facts, fb):
+        for bb in b.live_blocks:
+            for st in b.stmts(bb):
+                if st[0] == "A" and st[2][0] == "agg" and st[2][1][0] == "adt" and st[2][1][1] == RE and st[2][1][2] == "EmptyPlan":
+                    makers.append(b.stmt_span(st))
+    r.instance("fiber-never-builds-empty-plan", not makers,
+               "run_request_speculative_fiber builds RequestError::EmptyPlan: can_be_ignored(EmptyPlan) is false, so the whole call would return while earlier executions are still in flight; "
+               "an exhausted plan must be reported as None", makers[0] if makers else fb.span)
+    st_ok = [c for c in fb.calls_to("Option::<T>::map") if c.dest[0] == 0 or any(st[0] == "A" and st[1] == [0, []] and st[2][0] == "use" and st[2][1][0] in ("c", "m") and st[2][1][1][0] == c.dest[0]
+                                                                              for bb in fb.live_blocks for st in fb.stmts(bb))]
+    locs = set()
+    for c in st_ok:
+        locs |= backward_slice(fb, c.args[0])[0]
+    r.instance("fiber-returns-last-error-or-none", bool(st_ok) and any(fb.local_name(l) == "last_error" for l in locs),
+               "run_request_speculative_fiber must end with `last_error.map(Err)`: None when no attempt produced an error", fb.span)
+
+
 def _rv_ops(rv):
     k = rv[0]
     if k in ("use", "rep"):
@@ -154,7 +179,7 @@ def _rv_ops(rv):
 
 def check(ctx):
     facts = inline_view(ctx.facts("default"))
-    for fn in (r1, r2_r4):
+    for fn in (r1, r2_r4, r5):
         try:
             fn(ctx, facts)
         except AnchorLost as ex:
